@@ -517,9 +517,13 @@ def check_exhaustive(ck, R):
     fo = FA(ck, "metadata.ResultType.from_object")
     returned = set()
     for r in fo.returns():
-        d = A.dotted(r.value)
-        if d and d.startswith("ResultType."):
-            returned.add(d.split(".")[1])
+        if r.value is None or not fo.nodes(r):
+            continue
+        # the members a return can stand for (a member named directly, or picked from a literal table)
+        for v in possible_values(fo, r.value, fo.nodes(r)[0]):
+            d = A.dotted(v)
+            if d and d.startswith("ResultType."):
+                returned.add(d.split(".")[1])
     rt = ck.repo.cls("metadata.ResultType")
     members = [t.id for st in rt.node.body if isinstance(st, ast.Assign) for t in st.targets if isinstance(t, ast.Name)]
     dc = FA(ck, "storage_base.DefaultCodec.__init__")
@@ -779,30 +783,54 @@ def check_replay(ck, R):
     okr = [A.norm(a) for a in rr.args] == ["existing_memento"]
     ck.ob(R, pe.key(rr, "reads-own-memento"), okr, "the value is read for the memento at hand" if okr else
           "read_result is not called with the existing memento", pe.where(rr))
-    te = pe.calls("to_exception")
-    okt = False
-    for c in te:
-        g = pe.enclosing(c, ast.If)
-        if g is not None:
-            for t_ in A.conj_atoms(g.test):
-                ty = A.isinstance_types(t_)
-                if ty and "MementoException" in ty[1] and "call:read_result" in pe.deps(t_.args[0]) \
-                        and A.call_recv(c) is not None and "call:read_result" in pe.deps(A.call_recv(c)):
-                    okt = True
+    # what the function returns, per path class: ExistingMementoResult(result=<r>, valid_result=<v>) over the symbolic store
+    fields = namedtuple_fields(ck, "runner", "ExistingMementoResult")
+
+    def watch(tx, e):
+        it = A.isinstance_types(e)
+        return "ignore_result" in A.names_in(e) or "result_type" in A.attrs_in(e) or bool(it and "MementoException" in [t.split(".")[-1] for t in it[1]])
+
+    S = _runner_sym(ck, pe, watch=watch)
+    read = {S.text(rr, env) for (env, _l) in S.at(rr)}
+    ck.need(len(read) == 1, "process_existing_memento: read_result call not understood")
+    read = read.pop()
+    outs = []  # (return stmt, literals, result text, valid text)
+    for (r, env, lits, v) in S.return_states():
+        e = _parse(v)
+        if isinstance(e, ast.Call) and A.call_attr(e) == "ExistingMementoResult" and not any(isinstance(x, ast.Starred) for x in e.args):
+            fr, fv = A.arg_or_kw(e, 0, fields[0]), A.arg_or_kw(e, 1, fields[1])
+            outs.append((r, lits, A.norm(fr) if fr is not None else None, A.norm(fv) if fv is not None else None))
+        else:
+            outs.append((r, lits, None, None))
+    ck.need(outs, "process_existing_memento: no return reached")
+    is_exc = "isinstance(%s, MementoException)" % read
+    unwrapped = A.norm(_parse("(%s).to_exception()" % read))
+    valid = [o for o in outs if o[3] != "False"]  # every answer that is not "recompute"
+    on_exc = [o for o in valid if (is_exc, True) in o[1]]
+    okt = bool(on_exc) and all(o[2] == unwrapped and o[3] == "True" for o in on_exc)
     ck.ob(R, pe.key(None, "unwraps-exception"), okt, "a stored MementoException is rebuilt into the original exception class" if okt else
           "a stored MementoException is not passed through to_exception()", pe.where())
-    rets = [r for r in pe.returns() if isinstance(r.value, ast.Call) and A.norm(A.kwarg(r.value, "valid_result")) == "True"
-            and A.kwarg(r.value, "result") is not None and not A.is_none(A.kwarg(r.value, "result"))]
-    okv = len(rets) == 1 and "call:read_result" in pe.deps(A.kwarg(rets[0].value, "result")) and isinstance(A.kwarg(rets[0].value, "result"), ast.Name)
+    with_value = [o for o in valid if o[2] != "None"]
+    okv = bool(with_value) and all(o[3] == "True" and o[2] in (read, unwrapped) for o in with_value) and any(o[2] == read for o in with_value) \
+        and all(o[2] == read for o in with_value if (is_exc, False) in o[1])
     ck.ob(R, pe.key(None, "returns-read-value"), okv, "the value read back is returned as valid" if okv else
           "process_existing_memento does not return the value it read", pe.where())
-    ign = [r for r in pe.returns() if isinstance(r.value, ast.Call) and A.is_none(A.kwarg(r.value, "result")) and A.norm(A.kwarg(r.value, "valid_result")) == "True"]
-    oki = bool(ign) and all(pe.enclosing(r, ast.If) is not None and "ignore_result" in A.names_in(pe.enclosing(r, ast.If).test) for r in ign)
+    ign = [o for o in valid if o[2] == "None"]
+    oki = bool(ign) and all(("ignore_result", True) in o[1] for o in ign)
     ck.ob(R, pe.key(None, "ignore-means-valid-none"), oki, "(None, valid) is returned only under ignore_result" if oki else
           "a valid-but-empty answer is returned outside ignore_result", pe.where())
     # sibling agreement with the computing path (memento_run_local suppresses the value only when
     # the result is not an exception): a recorded exception is replayed under ignore_result too
-    okx = bool(ign) and all("exception" in A.norm(pe.enclosing(r, ast.If).test) and "result_type" in A.norm(pe.enclosing(r, ast.If).test) for r in ign if pe.enclosing(r, ast.If) is not None)
+    def not_exception(lits):
+        for (tx, p) in lits:
+            e = None if tx.startswith("@") else _parse(tx)
+            if isinstance(e, ast.Compare) and isinstance(e.ops[0], ast.Eq) and not p:
+                sides = [A.norm(e.left), A.norm(e.comparators[0])]
+                if "ResultType.exception" in sides and any(x.endswith(".invocation_metadata.result_type") and x.startswith("existing_memento") for x in sides):
+                    return True
+        return False
+
+    okx = bool(ign) and all(not_exception(o[1]) for o in ign)
     ck.ob(R, pe.key(None, "ignore-keeps-exceptions"), okx, "ignore_result does not suppress a recorded exception" if okx else
           "under ignore_result a memoized call answers (None, valid) without looking at the recorded result type: the first call raises the "
           "function's exception, every later call returns None", pe.where())
@@ -835,8 +863,11 @@ def check_replay(ck, R):
                 for h in p.handlers:
                     hts = [A.norm(t) for t in (h.type.elts if isinstance(h.type, ast.Tuple) else [h.type])] if h.type is not None else ["BaseException"]
                     if set(hts) & set(exc_names) | ({"x"} if "ImportError" in hts and "ModuleNotFoundError" in exc_names else set()):
-                        rets = [x for x in A.walk_local(h) if isinstance(x, ast.Return)]
-                        if rets and all(A.norm(r.value) == "self" for r in rets) and not any(isinstance(x, ast.Raise) for x in A.walk_local(h)):
+                        # once in the handler, the function can only end by returning self
+                        hn = [n_.id for n_ in tx.cfg.nodes if n_.kind == "except" and n_.ast is h]
+                        after = tx.cfg.reach(hn)
+                        rets = [r for r in tx.returns() if set(tx.nodes(r)) & after]
+                        if hn and rets and tx.cfg.raise_exit not in after and all(r.value is not None and tx.xnorm(r.value) == "self" for r in rets):
                             covered = True
             n = p
         ck.ob(R, tx.key(c, "total"), covered, "%s is covered by a handler that returns self" % what if covered else
@@ -856,11 +887,13 @@ def check_exception_surface(ck, R):
     """The exception object produced by the runner is raised to the caller of call(); the stored
     form of an exception is read with the keys it is written with."""
     cl = FA(ck, "base.MementoFunctionBase.call")
-    raises = [r for r in cl.stmts(ast.Raise) if isinstance(r.exc, ast.Name)]
+    raises = [r for r in cl.stmts(ast.Raise) if r.exc is not None and cl.nodes(r)]
     ok = False
     for r in raises:
-        g = cl.enclosing(r, ast.If)
-        if g is not None and A.norm(g.test) == "isinstance(%s, Exception)" % r.exc.id and "op:subscript" in cl.deps(r.exc) and "call:memento_run_batch" in cl.deps(r.exc):
+        # the raise is reached exactly when the slot holds an exception, and raises that slot
+        conds = cl.conditions(r)
+        want = ("isinstance(%s, Exception)" % cl.xnorm(r.exc), True)
+        if conds and all(want in c for c in conds) and "op:subscript" in cl.deps(r.exc) and "call:memento_run_batch" in cl.deps(r.exc):
             ok = True
     ck.ob(R, cl.key(None, "raises-result-exception"), ok, "call() raises the exception found in its result slot" if ok else
           "call() does not raise an exception returned in its result slot: a failing (or replayed failing) call returns the exception object as a value", cl.where())
